@@ -800,8 +800,16 @@ def enumerate_groups(tier, seed):
         plan.append((((n,) if i % 2 else (n, int(rng.integers(1, 7)))), int(rng.integers(0, 2 ** 31))))
     if not quick:
         plan += [(shape, seed + 1 + r) for r in range(2) for shape in SHAPES]
-    for shape, dseed in plan:
+    # data sections longer than the SPHERE reader's 16 KiB block with channel counts that do not divide it (3, 5, 6, 7 channels): a
+    # block boundary then falls INSIDE a multi-channel sample; only for the plain SPHERE containers (the other readers have no blocks)
+    big = [((2800, 3), seed), ((1700, 5), seed), ((1400, 6), seed + 1), ((1200, 7), seed + 2)]
+    plan = plan[:2] + [(sh, ds, ("sph01", "sph10")) for sh, ds in (big[:2] if quick else big)] + plan[2:]
+    for entry in plan:
+        shape, dseed = entry[0], entry[1]
+        only = entry[2] if len(entry) > 2 else None
         for cont in CONTAINERS:
+            if only is not None and cont.name not in only:
+                continue
             if not shape_ok(cont, shape):
                 continue
             for si, sdtype in enumerate(cont.sdtypes):
